@@ -114,12 +114,12 @@ def _check_case(case):
         rerrs = observe.reader_errors(text)
     except Exception:
         rerrs = []
-    have = collections.Counter(' '.join((e['msg'] or '').split()) for e in o.errors)
+    have = collections.Counter((' '.join((e['msg'] or '').split()), e['seg_id']) for e in o.errors)
     for (typ, cde, msg, sid) in rerrs:
-        m_ = ' '.join((msg or '').split())
+        m_ = (' '.join((msg or '').split()), sid)
         if typ == 'seg' and cde in ('1', '8', 'SEG1') and have[m_] <= 0:
             where = 'envelope-segment' if sid in ('ISA', 'GS', 'ST', 'SE', 'GE', 'IEA') else 'body-segment'
-            out.fail('R1:reader-error-lost:%s' % where, 'the reader reports %r (code %s) at a %s segment; the error tree has no such error (verdict %r)' % (m_, cde, sid, o.verdict))
+            out.fail('R1:reader-error-lost:%s' % where, 'the reader reports %r (code %s) at a %s segment; the error tree has no such error (verdict %r)' % (m_[0], cde, sid, o.verdict))
             break
         have[m_] -= 1
     # R1
@@ -136,20 +136,26 @@ def _check_case(case):
         out.fail('ack-unreadable', core.exc_detail(e))
         return out
     is999 = meta.get('icvn') == '00501' or (a['groups'] and a['groups'][0]['sets'] and False)
+    # an identifying value that contains one of the acknowledgement's own delimiters cannot be written as it is: those
+    # characters are left out (C06 checks that they never get through)
+    bad = '~*:^' if is999 else '~*:'
+
+    def wr(v):
+        return ''.join(c for c in (v or '') if c not in bad)
     # R2
     src_isa = isas[-1]['isa'] if isas else None
     if a['isa'] is None or not a['gs']:
         out.fail('R2:ack-envelope-missing', o.ack[:120])
         return out
-    if src_isa and (a['isa'][4:8] != [src_isa[6], src_isa[7], src_isa[4], src_isa[5]]):
+    if src_isa and ([x.rstrip() for x in a['isa'][4:8]] != [wr(x).rstrip() for x in (src_isa[6], src_isa[7], src_isa[4], src_isa[5])]):
         out.fail('R2:isa-not-addressed-to-sender', 'ack ISA05-08 %r, input ISA05-08 %r' % (a['isa'][4:8], src_isa[4:8]))
     src_groups = [g for i in isas for g in i['groups']]
     if src_groups:
         g0 = src_groups[-1]['gs']
-        if [x.rstrip() for x in a['gs'][0][1:3]] != [g0[2].rstrip(), g0[1].rstrip()]:
+        if [x.rstrip() for x in a['gs'][0][1:3]] != [wr(g0[2]).rstrip(), wr(g0[1]).rstrip()]:
             out.fail('R2:gs-not-addressed-to-sender', 'ack GS02/03 %r, input GS02/03 %r' % (a['gs'][0][1:3], g0[1:3]))
     # R3
-    want_ak1 = [[g['gs'][0], g['gs'][5]] for g in src_groups]
+    want_ak1 = [[wr(g['gs'][0]), wr(g['gs'][5])] for g in src_groups]
     got_ak1 = [g['ak1'][:2] for g in a['groups']]
     if got_ak1 != want_ak1:
         out.fail('R3:ak1-sequence', 'AK1 %r, input groups %r' % (got_ak1, want_ak1))
@@ -170,7 +176,7 @@ def _check_case(case):
     for gi, (sg, ag) in enumerate(zip(src_groups, a['groups'])):
         if is999 and len(ag['ak1']) > 2 and ag['ak1'][2] != sg['gs'][7]:
             out.fail('R3:ak1-version', 'AK103 %r, GS08 %r' % (ag['ak1'][2], sg['gs'][7]))
-        want = [s['st'][:2] for s in sg['sets']]
+        want = [[wr(x) for x in s['st'][:2]] for s in sg['sets']]
         got = [s['ak2'][:2] for s in ag['sets']]
         if got != want:
             out.fail('R3:ak2-sequence', 'group #%d: AK2 %r, input sets %r' % (gi, got, want))
